@@ -6,8 +6,8 @@ CONSTANTS Depth, MaxD, MaxPause, Plain, CbsOk, CbsErr
 
 PlainFull  == {<<"pass", 0>>, <<"ret", 1>>, <<"raise", 1>>, <<"retfail", 2>>}
 PlainSmall == {<<"ret", 1>>, <<"raise", 1>>}
-CbsOkQuick == {<<"raise", 1>>, <<"retdef", 1>>, <<"retdef", 2>>}
-CbsErrQuick == {<<"ret", 1>>, <<"retdef", 1>>, <<"retdef", 2>>}
+CbsOkQuick == {<<"raise", 1>>, <<"retdef", 1>>, <<"retdef", 2>>, <<"retdef", 3>>}
+CbsErrQuick == {<<"ret", 1>>, <<"retdef", 1>>, <<"retdef", 2>>, <<"retdef", 3>>}
 CbsErrFull  == PlainFull \cup {<<"retdef", t>> : t \in 1..4}
 Behs(d) == Plain \cup {<<"retdef", t>> : t \in D \ {d}}
 
